@@ -135,4 +135,83 @@ theorem shiftRealign_rel (s : State) (nsp : NewStreamData) (wo v : Nat) (out : L
           | none => simp
           | some b5 => simp
 
+/-- The decision part of `shift_and_check_new_stream_header` for a fresh header, without any
+reference to the output buffer: either a terminal code, or the state / pending data with which
+the copy-out starts and the bytes `q` the header writes first. -/
+def shiftHead (s : State) (nsp : NewStreamData) : Outcome (Nat ⊕ (State × NewStreamData × List Nat)) :=
+  if nsp.num_bytes_read > NUM_STREAM_HEADER_BYTES then Outcome.panic .shiftSliceRead else
+  (parseWindowSize (nsp.bytes_so_far.toList.take nsp.num_bytes_read)).bind fun pw =>
+  match pw with
+  | none => ok (.inl INVALID_WINDOW_SIZE)
+  | some (windowSize, windowOffset) =>
+    if s.window_size = 0 then
+      if s.last_byte_bit_offset ≠ 0 then Outcome.panic .shiftAssertOffset0 else
+      ok (.inr ({ s with window_size := windowSize ||| (if windowOffset = 14 then LARGE_WINDOW_FLAG else 0),
+                         any_bytes_emitted := true },
+                { nsp with num_bytes_written := some 1 }, [nsp.bytes_so_far.b0]))
+    else
+      if windowSize > (s.window_size &&& NOT_LARGE_WINDOW_FLAG) then ok (.inl WINDOW_SIZE_LARGER) else
+      if (decide (windowOffset = 14)) ≠ (decide ((s.window_size &&& LARGE_WINDOW_FLAG) ≠ 0)) then
+        ok (.inl NOT_CRAFTED_FOR_CONCAT) else
+      (detectVarlenOffset (nsp.bytes_so_far.toList.take nsp.num_bytes_read)).bind fun vo =>
+      match vo with
+      | none => ok (.inl NOT_CRAFTED_FOR_CONCAT)
+      | some varlenOffset =>
+        if (varlenOffset + 7) / 8 > nsp.num_bytes_read then ok (.inl NOT_CRAFTED_FOR_CONCAT) else
+        (shiftRealign s nsp windowOffset varlenOffset [] 1).bind fun r => ok (.inr r)
+
+/-- continuation of `shiftHead`: terminal code, or copy-out -/
+def shiftFinish (s : State) (out : List Nat) (cap : Nat) :
+    Nat ⊕ (State × NewStreamData × List Nat) → Outcome (State × List Nat × Nat)
+  | .inl c => ok (s, out, c)
+  | .inr (s', n', q) => shiftCopyOut s' n' (out ++ q) cap
+
+theorem shiftAndCheck_factor (s : State) (nsp : NewStreamData) (out : List Nat) (cap : Nat)
+    (hw : nsp.num_bytes_written = none) (hout : out.length < cap) :
+    shiftAndCheckNewStreamHeader s nsp out cap = (shiftHead s nsp).bind (shiftFinish s out cap) := by
+  unfold shiftAndCheckNewStreamHeader shiftHead
+  rw [hw]
+  dsimp only
+  by_cases c0 : nsp.num_bytes_read > NUM_STREAM_HEADER_BYTES
+  · simp [c0]
+  rw [if_neg c0, if_neg c0]
+  cases parseWindowSize (nsp.bytes_so_far.toList.take nsp.num_bytes_read) with
+  | panic t => simp
+  | ok pw =>
+    simp only [bind_ok]
+    cases pw with
+    | none => simp [shiftFinish]
+    | some wo =>
+      obtain ⟨wsz, wo⟩ := wo
+      dsimp only
+      by_cases c1 : s.window_size = 0
+      · rw [if_pos c1, if_pos c1]
+        by_cases c2 : s.last_byte_bit_offset ≠ 0
+        · rw [if_pos c2, if_pos c2]; simp
+        rw [if_neg c2, if_neg c2]
+        unfold push
+        rw [if_pos hout]
+        simp [shiftFinish]
+      rw [if_neg c1, if_neg c1]
+      by_cases c3 : wsz > (s.window_size &&& NOT_LARGE_WINDOW_FLAG)
+      · rw [if_pos c3, if_pos c3]; simp [shiftFinish]
+      rw [if_neg c3, if_neg c3]
+      by_cases c4 : (decide (wo = 14)) ≠ (decide ((s.window_size &&& LARGE_WINDOW_FLAG) ≠ 0))
+      · rw [if_pos c4, if_pos c4]; simp [shiftFinish]
+      rw [if_neg c4, if_neg c4]
+      cases detectVarlenOffset (nsp.bytes_so_far.toList.take nsp.num_bytes_read) with
+      | panic t => simp
+      | ok vo =>
+        simp only [bind_ok]
+        cases vo with
+        | none => simp [shiftFinish]
+        | some v =>
+          dsimp only
+          by_cases c5 : (v + 7) / 8 > nsp.num_bytes_read
+          · rw [if_pos c5, if_pos c5]; simp [shiftFinish]
+          rw [if_neg c5, if_neg c5, shiftRealign_rel s nsp wo v out cap hout]
+          cases shiftRealign s nsp wo v [] 1 with
+          | panic t => simp
+          | ok r => simp [shiftFinish]
+
 end BV.Concat
